@@ -1,5 +1,5 @@
 """Generator of .pyx modules that nest semantics-changing compiler directives at five levels (default, option,
-`# cython:` header, decorator, with-block) plus the resolver that predicts which setting governs every probe (C41)."""
+`# cython:` header, decorator - also several stacked decorators of the same directive on one function/class -, with-block) plus the resolver that predicts which setting governs every probe (C41)."""
 
 DEFAULTS = {'cdivision': False, 'boundscheck': True, 'wraparound': True, 'overflowcheck': False, 'cpow': False,
             'nonecheck': False, 'binding': True, 'embedsignature': False, 'always_allow_keywords': True,
@@ -93,6 +93,25 @@ class ModGen:
         k = '%s>%s' % (outer, gov)
         self.pairs[k] = self.pairs.get(k, 0) + 1
 
+    def deco_stack(self, dirs, env, p_each):
+        """Decorator lines (source order, outermost first) for one function/class.  Each directive of `dirs` gets, with
+        probability p_each, a stack of 1-3 decorators with independent random values (so the outermost one may restore the
+        enclosing value, repeat the inner one, or flip it); stacks of different directives are interleaved.  "Decorators
+        coming first take precedence": env receives the settings innermost first, the outermost one governs.  The innermost
+        decorator of a directive is level 'decorator', the ones stacked on top of it 'stacked-decorator'."""
+        rng = self.rng
+        entries = []
+        for d in dirs:
+            if rng.random() < p_each:
+                n = rng.choice([1, 1, 1, 2, 2, 2, 3])
+                entries += [(d, rng.random() < 0.5) for _ in range(n)]
+        rng.shuffle(entries)
+        seen = set()
+        for d, v in reversed(entries):
+            env.push(d, v, 'stacked-decorator' if d in seen else 'decorator')
+            seen.add(d)
+        return ['@cython.%s(%s)' % (d, v) for d, v in entries]
+
     # ------------------------------------------------------------------ statement-level families
     def block(self, fam, env, depth, pts, npoints, after_block=False):
         """returns source lines of a statement block; appends expected observations to pts"""
@@ -132,7 +151,7 @@ class ModGen:
         dirs = STMT_FAMILIES[fam]
         main_dir = 'wraparound' if kind == 'bounds_neg' else dirs[0]
         pts.append({'expected': exp, 'directive': main_dir, 'levels': list(env.lv[main_dir]), 'position': position,
-                    'kind': kind, 'env': {d: env.val[d] for d in dirs}})
+                    'kind': kind, 'env': {d: env.val[d] for d in dirs}, 'levels_by_directive': {d: list(env.lv[d]) for d in dirs}})
         self.note_pair(env.lv[main_dir])
         body = ['try:', '    out.append(%s)' % PROBE_EXPR[kind], 'except (IndexError, OverflowError, AttributeError) as exc:',
                 '    out.append(type(exc).__name__)']
@@ -151,19 +170,9 @@ class ModGen:
         cls_lines = None
         if in_class:
             cname = self.fresh('C')
-            cdecs = []
-            if rng.random() < 0.6:
-                d = rng.choice(dirs)
-                v = rng.random() < 0.5
-                cdecs.append('@cython.%s(%s)' % (d, v))
-                env.push(d, v, 'decorator')
-            cls_lines = cdecs + ['class %s:' % cname]
-        decs = []
-        for d in dirs:
-            if rng.random() < 0.5:
-                v = rng.random() < 0.5
-                decs.append('@cython.%s(%s)' % (d, v))
-                env.push(d, v, 'decorator')
+            cdecs = self.deco_stack([rng.choice(dirs)], env, 0.6)
+            cls_lines = cdecs + ['%sclass %s:' % (rng.choice(['', '', 'cdef ']), cname)]
+        decs = self.deco_stack(dirs, env, 0.5)
         pts = []
         sig = SIGNATURE['bounds' if fam == 'bounds' else fam]
         body = ['out = []']
@@ -207,26 +216,14 @@ class ModGen:
         lines = []
         if use_class:
             cname = self.fresh('K')
-            cl = []
-            if rng.random() < 0.6:
-                v = rng.random() < 0.5
-                cl.append('@cython.%s(%s)' % (d, v))
-                env.push(d, v, 'decorator')
+            cl = self.deco_stack([d], env, 0.6)
             cl.append('class %s:' % cname)
-            fl = []
-            if rng.random() < 0.5:
-                v = rng.random() < 0.5
-                fl.append('@cython.%s(%s)' % (d, v))
-                env.push(d, v, 'decorator')
+            fl = self.deco_stack([d], env, 0.5)
             fl += ['def %s(self, x):' % name, '    return x']
             lines = cl + indent(fl)
             target = "%s().%s" % (cname, name)
         else:
-            fl = []
-            if rng.random() < 0.6:
-                v = rng.random() < 0.5
-                fl.append('@cython.%s(%s)' % (d, v))
-                env.push(d, v, 'decorator')
+            fl = self.deco_stack([d], env, 0.6)
             fl += ['def %s(x):' % name, '    return x']
             lines = fl
             target = name
